@@ -11,6 +11,18 @@ Theorem C08_lines_lossless : forall s : bytes, text_of_lines (lines_of s) = s.
 Proof. exact lines_lossless. Qed.
 Print Assumptions C08_lines_lossless.
 
+(* ... and the split is the right one: a line's text contains no LF; a line ends in LF (and its text then does not
+   end in CR) or in CRLF; only the last line of the text may have no ending, and is then not empty.
+   Together with C08_lines_lossless this determines lines_of s uniquely. *)
+Theorem C08_lines_wellformed : forall (s : bytes) (pre : list line) (l : line) (post : list line),
+  lines_of s = pre ++ l :: post ->
+  ~ In 10%N (l_text l) /\
+  ((l_ending l = [10%N] /\ ~ (exists t, l_text l = t ++ [13%N])) \/
+   l_ending l = [13; 10]%N \/
+   (l_ending l = [] /\ post = [] /\ l_text l <> [])).
+Proof. exact lines_wellformed. Qed.
+Print Assumptions C08_lines_wellformed.
+
 (* 2. the blocks contain every line exactly once and in order, as soon as one line is significant *)
 Theorem C08_blocks_lossless : forall ls : list line,
   (exists l, In l ls /\ is_blank l = false) -> flatten_blocks (blocks_of_lines ls) = ls.
